@@ -100,6 +100,15 @@ def expansions_part(ctx):
             "expansion_exceptions": exc, "expansion_states": distinct}
 
 
+def key_fn(it, res, fails):
+    """finding D30: the lower tail bound (E[M] - a)^2 / E[(M - a)^2] at a point where M = a almost surely (the
+    assumption M - a >= 0 holds and the exact P(M > a) is 0): the quotient is 0/0, which the symbolic simplification
+    cancels to 1.  Every failing clause must be of that kind."""
+    if fails and all(f.get("clause") == "tailL" and str(f.get("semantics")) == "0" for f in fails):
+        return {"D30"}
+    return set()
+
+
 def main(tier, seed):
     quick = tier == "quick"
     items = [it for it in C.corpus_files()][:10] + C.generated(seed, 8 if quick else 80, ngoals=2)
@@ -124,7 +133,7 @@ def main(tier, seed):
         items.append({"id": "transient-" + name, "text": text, "T": None, "goals": sg, "points": [{}], "stat_goals": sg, "K": 4,
                       "origin": "transient " + name, "tail_goals": []})
     return analysis_check("C11", tier, seed, items=items, want=["parsed", "central", "cumulant", "tail", "allcum"], builders=[C.b_source, C.b_stats, C.b_tail],
-                          N=8 if quick else 10, timeout=120 if quick else 300, post=expansions_part,
+                          N=8 if quick else 10, timeout=120 if quick else 300, post=expansions_part, key_fn=key_fn,
                           assumptions=["orders k <= 4; tail bounds are read from the action's printed output at every n",
                                        "Cornish-Fisher is compared with the standard expansion up to the third bracket (five cumulants), transcribed from the literature into spec/Dists.tla",
                                        "expansions use cumulant vectors with rational standard deviation"])
@@ -132,4 +141,4 @@ def main(tier, seed):
 
 def replay(path):
     from ..driver import replay_analysis
-    return replay_analysis("C11", path, want=["parsed", "central", "cumulant", "tail"], builders=[C.b_source, C.b_stats, C.b_tail], N=5)
+    return replay_analysis("C11", path, want=["parsed", "central", "cumulant", "tail"], builders=[C.b_source, C.b_stats, C.b_tail], N=5, key_fn=key_fn)
